@@ -27,6 +27,8 @@ pub struct XNode {
     pub id: usize,
     /// bytes examined by the lexer beyond the node's end (hook H2)
     pub lookahead: u32,
+    /// MISSING leaves in this node's subtree that are not visible on their own (hook H2); they count for has_error
+    pub hidden_missing: u32,
 }
 
 #[derive(Clone, Debug)]
@@ -66,11 +68,25 @@ impl XTree {
                 parse_state: n.parse_state(),
                 id: n.id(),
                 lookahead: unsafe { ts_verif_node_lookahead_bytes(n.into_raw()) },
+                hidden_missing: 0,
             });
             if let Some(p) = parent { nodes[p].children.push(idx); }
             if cursor.goto_first_child() { stack.push(idx); continue; }
             loop {
-                if stack.is_empty() { return XTree { nodes }; }
+                if stack.is_empty() {
+                    // hidden MISSING tokens are rare: one query at the root, and a second walk only if there are any
+                    if unsafe { ts_verif_node_hidden_missing(root.into_raw()) } > 0 {
+                        let mut c2 = root.walk();
+                        let mut k = 0usize;
+                        'walk: loop {
+                            nodes[k].hidden_missing = unsafe { ts_verif_node_hidden_missing(c2.node().into_raw()) };
+                            k += 1;
+                            if c2.goto_first_child() { continue; }
+                            loop { if c2.goto_next_sibling() { break; } if !c2.goto_parent() { break 'walk; } }
+                        }
+                    }
+                    return XTree { nodes };
+                }
                 if cursor.goto_next_sibling() { break; }
                 let ok = cursor.goto_parent();
                 assert!(ok, "cursor.goto_parent failed below the root");
@@ -79,7 +95,7 @@ impl XTree {
         }
     }
 
-    pub fn has_error_or_missing(&self) -> bool { self.nodes.iter().any(|n| n.is_error || n.missing) }
+    pub fn has_error_or_missing(&self) -> bool { self.nodes.iter().any(|n| n.is_error || n.missing) || self.nodes[0].hidden_missing > 0 }
     pub fn root_has_error(&self) -> bool { self.nodes[0].has_error }
 
     /// Number of nodes in the subtree rooted at i (including i).
@@ -165,6 +181,7 @@ extern "C" {
     fn ts_verif_check_tree(tree: *const std::ffi::c_void, err: *mut std::ffi::c_char, errlen: usize) -> i32;
     fn ts_verif_root_ref_count(tree: *const std::ffi::c_void) -> u32;
     fn ts_verif_node_lookahead_bytes(node: tree_sitter::ffi::TSNode) -> u32;
+    fn ts_verif_node_hidden_missing(node: tree_sitter::ffi::TSNode) -> u32;
 }
 
 pub fn raw_tree(tree: &Tree) -> *const std::ffi::c_void {
